@@ -170,6 +170,11 @@ def gen_c03(plan, tier, rng):
     decls = decl_catalogue(tier, rng, "C03")
     if tier == "quick":
         decls = decls[::2]
+    # conversions must report the constructor's error for rule orders in which a cheaper rule is NOT first
+    have = {d.modname() for d in decls}
+    for d in (StrDecl([], ["pred", "max"]), StrDecl(["lowercase"], ["min", "max"]), StrDecl([], ["regex", "max", "min"])):
+        if d.modname() not in have:
+            decls.append(d)
     for d in decls:
         d.derive = ["Debug", "FromStr"] + (["TryFrom"] if d.has_validation() else ["From"])
         body = ""
